@@ -86,7 +86,25 @@ def proxies():
     npo = {'pi': pi, 'sin': _sym_fn(_np.sin, SIN, 'sin'), 'cos': _sym_fn(_np.cos, COS, 'cos'), 'exp': _sym_fn(_np.exp, EXP, 'exp'),
            'sqrt': _sym_sqrt(_np.sqrt)}
     return {'np': _Proxy(_np, npo), 'numpy': _Proxy(_np, npo),
-            'math': _Proxy(_math, {'pi': pi, 'sqrt': _sym_sqrt(_math.sqrt), 'log': _sym_log(_math.log)})}
+            'math': _Proxy(_math, {'pi': pi, 'sqrt': _sym_sqrt(_math.sqrt), 'log': _sym_log(_math.log),
+                                   'ceil': _sym_round(_math.ceil, 'ceil'), 'floor': _sym_round(_math.floor, 'floor')})}
+
+
+def _sym_round(real_fn, how):
+    """math.ceil / math.floor of a symbolic number: a fresh integer n with n-1 < x <= n resp. n <= x < n+1 (logged)"""
+    def f(x):
+        from .pysym import SymReal, SymInt
+        if isinstance(x, SymInt):
+            return x
+        if not isinstance(x, SymReal):
+            return real_fn(x)
+        n = core.fresh_int(f'py{how}')
+        r = z3.ToReal(n)
+        core.assume(z3.And(r - 1 < x.t, x.t <= r) if how == 'ceil' else z3.And(r <= x.t, x.t < r + 1))
+        if core.CTX is not None:
+            core.ctx().log.append((f'py{how}', x.t, n))
+        return SymInt(n)
+    return f
 
 
 def load(mod, **kw):
